@@ -53,6 +53,12 @@ type Cfg struct {
 	Panic    []string `json:"panic"`    // both modes: messages whose first attempt panics inside the target
 	Pid      int      `json:"pid"`      // post_init_delay (units)
 	Downtime int      `json:"downtime"` // units of (fake) time between shutdown and restart     // messages whose header cannot be opened (ELOOP) from the end of attempt 1 to the restart
+	// queue mode with restart (residue_test.go): what else is in the spool directory when the process comes
+	// back, how often it is shut down and started again, later failing attempts and the growth of the retry delay
+	Left     []string `json:"left"`     // kinds of residue planted while the process is down (see plant)
+	Restarts int      `json:"restarts"` // 0/1: one restart; n: shut down and started again n times
+	Retry2   []string `json:"retry2"`   // messages whose SECOND attempt fails temporarily as well
+	Scale    int      `json:"scale"`    // retry_time_scale (0 = 1): attempt n+1 is due RetryDelay*Scale^(n-1) after attempt n
 }
 
 type Behaviour struct {
@@ -94,6 +100,11 @@ type run struct {
 	hdr   map[string]bool
 	broke []string
 	q2    *queue.Queue
+	// residue_test.go
+	retry2    map[string]bool
+	attempted map[string]bool         // messages attempted by the running incarnation
+	saved     map[string][2][]byte    // message -> its .meta / .body as they were when Commit returned
+	stop      func() bool             // the clock stands still while this holds (next shutdown is due)
 }
 
 func (r *run) now() int { return int(time.Since(r.t0) / tickDur) }
@@ -129,7 +140,12 @@ func (r *run) listing() (pending, broken []string) {
 	return
 }
 
-func msgOf(e string) string { return strings.TrimSuffix(e, ".2") }
+func msgOf(e string) string {
+	if i := strings.Index(e, "."); i >= 0 {
+		return e[:i]
+	}
+	return e
+}
 
 // attempt is the observation point "the attempt for entry e starts"; it
 // returns whether the scripted outcome is a temporary failure.
@@ -137,13 +153,25 @@ func (r *run) attempt(e string) string {
 	now := r.now()
 	res := "ok"
 	first := !strings.Contains(e, ".")
+	n, delay := 1, r.b.Cfg.RetryDelay
+	if !first {
+		fmt.Sscan(e[strings.LastIndex(e, ".")+1:], &n)
+	}
 	if first && r.panics[e] {
 		res = "panic"
 	} else if first && r.retry[e] {
 		res = "temp"
+	} else if n == 2 && r.retry2[msgOf(e)] {
+		res = "temp" // the retry delay grows: RetryDelay * Scale^(n-1) after the n-th failed attempt
+		if r.b.Cfg.Scale > 1 {
+			delay *= r.b.Cfg.Scale
+		}
+	}
+	if r.attempted != nil {
+		r.attempted[msgOf(e)] = true
 	}
 	r.tr.Emit("Dispatch", vtrace.Ev{"ent": e, "m": msgOf(e), "now": now, "res": res,
-		"next": e + ".2", "ndue": now + r.b.Cfg.RetryDelay})
+		"next": fmt.Sprintf("%s.%d", msgOf(e), n+1), "ndue": now + delay, "att": n})
 	return res
 }
 
@@ -236,7 +264,7 @@ func (r *run) newQueue() (*queue.Queue, error) {
 	c := r.b.Cfg
 	return queue.VerifNewQueue(queue.VerifConfig{
 		Location: r.dir, Target: target{r}, MaxTries: 5, MaxParallelism: c.Par,
-		InitialRetryTime: time.Duration(c.RetryDelay) * tickDur, RetryTimeScale: 1,
+		InitialRetryTime: time.Duration(c.RetryDelay) * tickDur, RetryTimeScale: float64(max(c.Scale, 1)),
 		PostInitDelay: time.Duration(c.Pid) * tickDur,
 		Hostname:      "mx.example.org", AutogenMsgDomain: "example.org",
 		Log: log.Logger{Out: log.NopOutput{}},
@@ -251,17 +279,51 @@ func (r *run) restart() {
 		r.clock()
 	}
 	r.restoreHeaders()
-	r.tr.Emit("Restart", vtrace.Ev{"now": r.now(), "pid": r.b.Cfg.Pid})
-	r.nextName = "tick2"
-	r.s.Spawn("restart", func() {
-		q, err := r.newQueue()
-		if err != nil {
-			panic(err)
+	n := max(r.b.Cfg.Restarts, 1)
+	for k := 1; k <= n; k++ {
+		left := r.plant()
+		r.tr.Emit("Restart", vtrace.Ev{"now": r.now(), "pid": r.b.Cfg.Pid, "left": left})
+		r.nextName = fmt.Sprintf("tick%d", k+1)
+		r.attempted = map[string]bool{}
+		r.s.Spawn(fmt.Sprintf("restart%d", k), func() {
+			q, err := r.newQueue()
+			if err != nil {
+				panic(err)
+			}
+			r.q2 = q
+		})
+		r.b.Sched, r.b.Delays, r.b.Pol = nil, nil, "db"
+		if k == n {
+			r.loop()
+			return
 		}
-		r.q2 = q
-	})
-	r.b.Sched, r.b.Delays, r.b.Pol = nil, nil, "db"
-	r.loop()
+		// not the last incarnation: it runs until everything it found pending has been attempted once,
+		// then it is shut down (while later retries are still waiting) and the process stays down again
+		r.stop = func() bool {
+			pe, _ := r.listing()
+			for _, m := range pe {
+				if !r.attempted[m] {
+					return false
+				}
+			}
+			return true
+		}
+		r.loop()
+		r.s.Settle()
+		r.stop = nil
+		q := r.q2
+		r.s.Spawn(fmt.Sprintf("closer%d", k+1), func() {
+			r.tr.Emit("CloseCall", nil)
+			q.Close()
+			pe, br := r.listing()
+			r.tr.Emit("CloseReturn", vtrace.Ev{"pending": pe, "broken": br})
+		})
+		r.loop()
+		r.s.Settle()
+		for i := 0; i < r.b.Cfg.Downtime; i++ {
+			r.clock()
+		}
+	}
 }
 
 // ---------------------------------------------------------------- set-up
@@ -272,6 +334,11 @@ func (r *run) setup() {
 	for _, p := range c.Retry {
 		r.retry[p] = true
 	}
+	r.retry2 = map[string]bool{}
+	for _, p := range c.Retry2 {
+		r.retry2[p] = true
+	}
+	r.saved = map[string][2][]byte{}
 	r.panics = map[string]bool{}
 	for _, p := range c.Panic {
 		r.panics[p] = true
@@ -369,6 +436,7 @@ func (r *run) setup() {
 					r.tr.Emit("AddPanic", vtrace.Ev{"p": p, "msg": fmt.Sprint(v)})
 				}
 			}()
+			r.save(p) // (no scheduling point since Body returned: the files are as Body left them)
 			if err := d.Commit(ctx); err != nil {
 				panic(err)
 			}
@@ -423,12 +491,16 @@ func (r *run) selOrder(g *vsched.G, n int) []int {
 }
 
 func (r *run) cap() int {
-	return 2*r.b.Cfg.MaxTime + r.b.Cfg.RetryDelay + 2 + r.b.Cfg.Downtime + r.b.Cfg.Pid
+	c := r.b.Cfg
+	return 2*c.MaxTime + c.RetryDelay*(1+max(c.Scale, 1)) + 2 + (c.Downtime+c.Pid+1)*max(c.Restarts, 1)
 }
 
 // clockOK: the clock runs freely up to MaxTime; beyond it only while nothing
 // else can run and something is still unfinished (to let pending timers fire).
 func (r *run) clockOK(runnable int) bool {
+	if r.stop != nil && r.stop() {
+		return false
+	}
 	if c := r.b.Cfg; c.Restart && c.Mode == "queue" && r.q2 == nil && runnable == 0 {
 		// shut down and quiet: the restart comes now, not after the clock ran out
 		if g := r.s.ByName("closer"); g != nil && g.State() == vsched.Done {
@@ -601,7 +673,8 @@ func runBehaviour(t *testing.T, b Behaviour, w *bufio.Writer) {
 		r.tr.Emit("Cfg", vtrace.Ev{"mode": c.Mode, "due": c.Due, "close": c.Close, "retry": append([]string{}, c.Retry...),
 			"par": c.Par, "maxTime": c.MaxTime, "retryDelay": c.RetryDelay, "restart": c.Restart,
 			"hdr": append([]string{}, c.Hdr...), "panic": append([]string{}, c.Panic...), "pid": c.Pid,
-			"downtime": c.Downtime})
+			"downtime": c.Downtime, "left": append([]string{}, c.Left...), "restarts": c.Restarts,
+			"retry2": append([]string{}, c.Retry2...), "scale": max(c.Scale, 1), "rd": c.RetryDelay})
 		r.setup()
 		r.loop()
 		r.s.Settle()
@@ -613,7 +686,7 @@ func runBehaviour(t *testing.T, b Behaviour, w *bufio.Writer) {
 		}
 		hung := []string{}
 		for _, g := range r.s.Unfinished() {
-			if g.Name != "tick" && g.Name != "tick2" {
+			if !strings.HasPrefix(g.Name, "tick") {
 				hung = append(hung, g.Name)
 			}
 		}
